@@ -986,7 +986,7 @@ fn ent_strategy_shaped(shapes: BoxedStrategy<Vec<usize>>) -> impl Strategy<Value
 pub fn run_c10(ctx: &Ctx) {
     let t = ctx.tier();
     ctx.run_proptest("ent", t.pick(40_000, 1_500_000), ent_strategy(), &check_ent);
-    ctx.run_proptest("ent-long", t.pick(600, 20_000), ent_long_strategy(t.pick(10_000, 20_000)), &check_ent);
+    ctx.run_proptest("ent-long", t.pick(600, 20_000), ent_long_strategy(t.pick(40_000, 70_000)), &check_ent);
 }
 
 pub fn replayers_c08() -> Vec<(&'static str, ReplayFn)> {
